@@ -294,7 +294,7 @@ Section Append.
         unfold tsize.
         assert (Hd : forall l, dsum dlen l = dsum dlen (ne l)).
         { induction l as [|x l IHl]; [reflexivity|]. cbn [nonempty filter].
-          destruct (Z.eqb_spec (dlen x) 0) as [Ex|Ex]; cbn [negb]; unfold dsum in *; cbn [map zsum]. all: idtac. Show. all: lia. }
+          destruct (Z.eqb_spec (dlen x) 0) as [Ex|Ex]; cbn [negb]; unfold dsum, nonempty in *; cbn [map zsum]; lia. }
         rewrite (Hd (leaves (commit dnil s3))), (Hd (leaves t)), (Hd cs).
         change (ne (leaves (commit dnil s3))) with (data_leaves dlen (commit dnil s3)).
         unfold data_leaves at 1. rewrite commit_leaves. fold (st_data s3). rewrite Hl.
